@@ -146,13 +146,17 @@ theorem adjust_zero (a : Rat) : optAdd a (some 0) = a := by simp [optAdd]
 theorem lighten_exact_clamped (c : Col Rat) (a : Rat) :
     (lightenBy CQuirks.spec c a true).lightness CQuirks.spec
       = clamp 0 1 ((c.toHsla CQuirks.spec).l + a) * 100 := by
-  simp [lightenBy, Col.lightness, Col.toHsla, Hsla.new, CQuirks.spec]
+  simp only [lightenBy, Col.lightness, Hsla.new, CQuirks.spec, Bool.false_eq_true, if_false, if_true,
+    clamp_clamp]
+  rfl
 
 /-- FULL STATEMENT: `darken` moves the lightness by exactly the amount, clamped to 0..1 -/
 theorem darken_exact_clamped (c : Col Rat) (a : Rat) :
     (lightenBy CQuirks.spec c a false).lightness CQuirks.spec
       = clamp 0 1 ((c.toHsla CQuirks.spec).l - a) * 100 := by
-  simp [lightenBy, Col.lightness, Col.toHsla, Hsla.new, CQuirks.spec]
+  simp only [lightenBy, Col.lightness, Hsla.new, CQuirks.spec, Bool.false_eq_true, if_false, if_true,
+    clamp_clamp]
+  rfl
 
 /-- FULL STATEMENT: `saturate` moves the saturation by exactly the amount, clamped -/
 theorem saturate_exact_clamped (c : Col Rat) (a : Rat) :
@@ -171,8 +175,8 @@ theorem opacify_exact_clamped (c : Col Rat) (a : Rat) (up : Bool) :
     (fadeBy c a up).alpha = clamp 0 1 (if up then c.alpha + a else c.alpha - a) := by
   cases c <;> simp [fadeBy, Col.setAlpha, Col.alpha, clamp_clamp]
 
-/-- REFUTATION (`hslUnclamped`, finding C32-lighten-unclamped): as written, lightening white
-by 10% reports lightness 110%. -/
+/-- REFUTATION (`lightenUnclamped` + `hslUnclamped`, finding C32-lighten-unclamped, fixed by
+9a5b50b): as written before the fix, lightening white by 10% reports lightness 110%. -/
 theorem lighten_unclamped_refutes :
     (lightenBy CQuirks.asis (Col.rgba (Rgba.fromBytes 255 255 255 : Rgba Rat)) (1 / 10) true).lightness
       CQuirks.asis = 110 := by decide +kernel
@@ -187,8 +191,8 @@ theorem lighten_darken_cancel_unclamped_partial (s : Hsla Rat) (a : Rat) (h : s.
       = Col.hsla { s with fmt := false } := by
     simp only [lightenBy, Col.toHsla, Hsla.new, CQuirks.spec, Bool.false_eq_true, if_false, if_true]
     have d := degMod_id { } s.h h0 h1
-    rw [d, d, clamp_clamp, clamp_id _ _ _ s0 s1, clamp_id 0 1 (s.l + a) (by linarith) hl,
-      cminmax_id _ a0 a1, cminmax_id _ a0 a1]
+    rw [d, d, clamp_clamp, clamp_clamp, clamp_clamp, clamp_id _ _ _ s0 s1,
+      clamp_id 0 1 (s.l + a) (by linarith) hl, cminmax_id _ a0 a1, cminmax_id _ a0 a1]
     have : s.l + a - a = s.l := by ring
     rw [this, clamp_id _ _ _ l0 l1]
   rw [e]
